@@ -11,6 +11,8 @@ rsync -a --delete --exclude target /repo/ $M/repo/
 rsync -a --delete --exclude work --exclude .git --exclude evidence/replays --exclude harness/target /verif/ $M/verif/ 2>/dev/null || true
 sed -i "s#/repo/crates#$M/repo/crates#g" $M/verif/harness/Cargo.toml
 cd $M/repo && patch -p1 -s -N --fuzz=3 < "$P" || { echo "patch does not apply"; exit 2; }
+# rsync restores reverted files with their OLD mtimes, which cargo takes for "unchanged": force a rebuild
+find $M/repo/crates -name '*.rs' -exec touch {} +
 cd $M/verif
 export ANYDB_REPO=$M/repo
 rm -f harness/Cargo.lock; cp $M/repo/Cargo.lock harness/Cargo.lock
